@@ -425,3 +425,112 @@ def check_request_order(ctx, fi, rule='R-PERM/request-order'):
                    'ranges, min / max): the rows come back in file order, '
                    'not in the order requested')
     return n
+
+
+def check_parallel_windows_in_step(ctx, fi,
+                                   rule='R-PERM/parallel-windows-in-step'):
+    """two arrays cut by the same window (`indices[i0:i1]` and
+    `data[i0:i1]`) are parallel: element k of one belongs to element k of
+    the other.  Reordering one of the cuts -- sorting it in place, storing a
+    sorted copy into it, rebinding it to its sorted self -- has to be done
+    to the other with the same permutation (an argsort applied to both);
+    otherwise every value moves to another column."""
+    n = 0
+    cuts = {}          # slice text -> {local name: source name}
+    for st in ast.walk(fi.node):
+        if isinstance(st, ast.Assign) and len(st.targets) == 1 \
+                and isinstance(st.targets[0], ast.Name) \
+                and isinstance(st.value, ast.Subscript) \
+                and isinstance(st.value.slice, ast.Slice) \
+                and isinstance(st.value.value, (ast.Name, ast.Subscript,
+                                                ast.Attribute)):
+            key = unparse(st.value.slice)
+            cuts.setdefault(key, {})[st.targets[0].id] = unparse(
+                st.value.value)
+    for key, members in sorted(cuts.items()):
+        if len(set(members.values())) < 2 or len(members) < 2:
+            continue
+        names = set(members)
+        # views of a member: m[a:b] bound to a local
+        alias = {m: {m} for m in names}
+        changed = True
+        while changed:
+            changed = False
+            for st in ast.walk(fi.node):
+                if isinstance(st, ast.Assign) and len(st.targets) == 1 \
+                        and isinstance(st.targets[0], ast.Name) \
+                        and isinstance(st.value, ast.Subscript) \
+                        and isinstance(st.value.slice, ast.Slice) \
+                        and isinstance(st.value.value, ast.Name):
+                    for m, al in alias.items():
+                        if st.value.value.id in al \
+                                and st.targets[0].id not in al \
+                                and st.targets[0].id not in names:
+                            al.add(st.targets[0].id)
+                            changed = True
+
+        def base(e):
+            while isinstance(e, ast.Subscript):
+                e = e.value
+            return e.id if isinstance(e, ast.Name) else None
+
+        def owner(name):
+            for m, al in alias.items():
+                if name in al:
+                    return m
+            return None
+
+        def sorts_of(e):
+            out = set()
+            for c in ast.walk(e):
+                if isinstance(c, ast.Call) and _call_name(c) in (
+                        'sort', 'sorted') and c.args:
+                    o = owner(base(c.args[0]))
+                    if o is not None:
+                        out.add(o)
+            return out
+
+        reordered = {}      # member -> node
+        permuted = set()    # members reordered through an argsort
+        for st in ast.walk(fi.node):
+            if isinstance(st, ast.Expr) and isinstance(st.value, ast.Call) \
+                    and isinstance(st.value.func, ast.Attribute) \
+                    and st.value.func.attr == 'sort':
+                o = owner(base(st.value.func.value))
+                if o is not None:
+                    reordered.setdefault(o, st)
+            elif isinstance(st, (ast.Assign, ast.AugAssign)):
+                tgts = st.targets if isinstance(st, ast.Assign) else [
+                    st.target]
+                for t in tgts:
+                    o = owner(base(t))
+                    if o is None:
+                        continue
+                    if o in sorts_of(st.value):
+                        reordered.setdefault(o, st)
+                    elif any(isinstance(c, ast.Call)
+                             and _call_name(c) in ('argsort', 'lexsort')
+                             for c in ast.walk(st.value)) or (
+                            isinstance(st.value, ast.Subscript)
+                            and owner(base(st.value)) == o
+                            and not isinstance(st.value.slice, ast.Slice)
+                            and isinstance(t, ast.Name)):
+                        permuted.add(o)
+        n += 1
+        bad = [m for m in sorted(reordered)
+               if any(o not in permuted for o in names if o != m)]
+        ctx.touch(fi)
+        if bad:
+            st = reordered[bad[0]]
+            others = sorted(members[o] for o in names if o != bad[0])
+            ctx.ob(rule, f'{fi.qual}:[{key}]', fi.loc(st), False,
+                   f'`{unparse(st)[:60]}` puts the cut of '
+                   f'`{members[bad[0]]}` into sorted order, but the cut of '
+                   f'{", ".join(others)} taken with the same window '
+                   f'[{key}] keeps its order: the entries no longer '
+                   'belong to each other')
+        else:
+            ctx.ob(rule, f'{fi.qual}:[{key}]', fi.loc(fi.node), True,
+                   f'cuts {sorted(names)} by [{key}] are never reordered '
+                   'separately')
+    return n
